@@ -4,7 +4,7 @@
    real libraries by the correspondence on every run. *)
 From Coq Require Import String.
 From CP Require Import Model.Base Generated.Consts Model.Ranges Model.Lex Model.RangeParse Model.Dec Model.DecRange
-  Model.FieldTypes Spec.FieldSpec Proofs.IntProofs Proofs.RegexProofs Proofs.FieldTypesProofs Proofs.DateTimeProofs.
+  Model.FieldTypes Spec.FieldSpec Proofs.IntProofs Proofs.RegexProofs Proofs.FieldTypesProofs Proofs.DateTimeProofs Proofs.DateTimeComplete.
 Local Open Scope Z_scope.
 
 (* ---------- Integer *)
@@ -78,6 +78,25 @@ Proof. exact strptime_sound. Qed.
    and number - this is where "YYYY before YY" in the table read from the source matters *)
 Theorem datetime_layout_translation : forall l, layout_ok l = true -> strptime_format (layout_text l) = layout_directives l.
 Proof. exact translate_layout. Qed.
+
+(* completeness for canonical writing: the strptime format of such a layout consists of exactly its items, and a value
+   written item by item, zero padded (DD MM hh mm ss two digits, YYYY four, YY two), is segmented into exactly these
+   items - whatever the order of the items and with or without separators between them - and accepted iff the date the
+   items denote passes the calendar check (the seven finite item ranges are checked by evaluation and lifted) *)
+Theorem datetime_format_items : forall l fuel, (2 * length l < fuel)%nat -> forallb lit_plain l = true ->
+  parse_format fuel (layout_directives l) = Some (map fitem_of l).
+Proof. exact parse_format_layout. Qed.
+Theorem datetime_canonical_text_is_segmented : forall l v rest acc, forallb lit_plain l = true -> Forall (tok_in_range v) l ->
+  sp_match (map fitem_of l) (layout_render l v ++ rest) acc = Some (acc ++ layout_groups l v, rest).
+Proof. exact canonical_text_is_segmented. Qed.
+Theorem datetime_canonical_accepted : forall l v, forallb lit_plain l = true -> Forall (tok_in_range v) l ->
+  strptime (map fitem_of l) (layout_render l v) =
+    let a := fold_left tm_step (layout_groups l v) tm0 in
+    let check_year := match a_year a with Some y => y | None => if (a_month a =? 2) && (a_day a =? 29) then 1904 else 1900 end in
+    if valid_date check_year (a_month a) (a_day a)
+    then Some (VTime (match a_year a with Some y => y | None => 1900 end) (a_month a) (a_day a) (a_hour a) (a_min a) (a_sec a))
+    else None.
+Proof. exact strptime_canonical. Qed.
 
 (* ---------- Pattern / RegEx *)
 (* RegEx: accepted iff some prefix of the value (from its first character) is in the language of the expression *)
